@@ -639,6 +639,22 @@ class Interp(Engine):
 
     # comprehensions over concrete iterables are unrolled; over symbolic sequences see builtins (folds)
     def e_ListComp(self, node, env, ctx):
+        if len(node.generators) == 1 and not node.generators[0].ifs:
+            g = node.generators[0]
+            it = self.eval(g.iter, env)
+            if isinstance(it, GenCall):
+                it = self.gencall_as_sseq(it) or it
+            if isinstance(it, SSeq) and not z3.is_int_value(z3.simplify(it.length)):
+                # [f(x) for x in <sequence of symbolic length>]: element-wise map
+                def elem(i):
+                    e2 = Env(env)
+                    self.assign_target(g.target, it.elem(i), e2)
+                    self.pure += 1
+                    try:
+                        return self.eval(node.elt, e2)
+                    finally:
+                        self.pure -= 1
+                return SSeq(it.length, elem, 'map(%s)' % it.name)
         return list(self.comprehension(node, env))
 
     def e_GeneratorExp(self, node, env, ctx):
@@ -679,6 +695,12 @@ class Interp(Engine):
 
     def iterate(self, it):
         it = self.resolve_lazy(it)
+        if isinstance(it, GenCall):
+            seq = self.gencall_as_sseq(it)
+            if seq is not None:
+                return self.iterate(seq)
+            from . import builtins as B
+            return B.run_generator(self, it)
         if isinstance(it, LazyGen):
             return it.materialize()
         if isinstance(it, (list, tuple, set, frozenset, str, range)):
@@ -696,6 +718,31 @@ class Interp(Engine):
             if r is not NotImplemented:
                 return r
         raise OutOfSubset('iteration over %r' % (it,))
+
+    def gencall_as_sseq(self, gc):
+        """a generator function of the shape `for X in <seq>: yield <expr>` called on a sequence of
+        symbolic length is the element-wise map of that sequence"""
+        body = [s for s in gc.clo.node.body if not (isinstance(s, ast.Expr) and isinstance(s.value, ast.Constant))]
+        if len(body) != 1 or not isinstance(body[0], ast.For) or body[0].orelse:
+            return None
+        loop = body[0]
+        if len(loop.body) != 1 or not isinstance(loop.body[0], ast.Expr) or not isinstance(loop.body[0].value, ast.Yield):
+            return None
+        it = self.eval(loop.iter, gc.env)
+        if not isinstance(it, SSeq):
+            return None
+        yexpr = loop.body[0].value.value
+
+        def elem(i):
+            e2 = Env(gc.env)
+            self.assign_target(loop.target, it.elem(i), e2)
+            self.pure += 1
+            try:
+                return self.eval(yexpr, e2)
+            finally:
+                self.pure -= 1
+
+        return SSeq(it.length, elem, 'map(%s)' % it.name)
 
     def e_Call(self, node, env, ctx):
         fn = self.eval(node.func, env)
